@@ -281,6 +281,16 @@ def evaluate(case):
         if got.shape != model.shape or not np.allclose(got, model):
             raise Violation("setitem", "setitem", f"after X[{idx}] = {how} the coefficients differ from the numpy model (shape {shape}, "
                             f"{case['container']}): got {got.tolist()}, expected {model.tolist()}")
+        # the assignment copies: overwriting the right-hand side afterwards (through the multivector) touches nothing of X
+        if how != "scalar" and target_shape and all(n_ > 0 for n_ in target_shape):
+            w0 = np.full_like(rhs_vals[:, 0], -999.0)        # entry 0 along the first trailing axis of every coefficient
+            wipe = kd.mk_raw(alg, ka, w0 if case["container"] == "ndarray" else [np.array(r_) for r_ in w0])
+            rw = _obs(lambda: rhs.__setitem__(0, wipe))
+            if rw[0] == "ok":
+                got = np.array([np.asarray(v, dtype=float) for v in X.values()])
+                if got.shape != model.shape or not np.allclose(got, model):
+                    raise Violation("setitem", "setitem", f"after X[{idx}] = Y, assigning to Y changed X (shape {shape}, {case['container']}): "
+                                    f"X reads {got.tolist()}, expected {model.tolist()}")
         # a right-hand side holding the same blades in another key order: refused, or assigned blade by blade
         if len(ka) >= 2 and how != "scalar":
             X2 = kd.mk_raw(alg, ka, np.array(A) if case["container"] == "ndarray" else [np.array(r) for r in A])
